@@ -115,7 +115,8 @@ theorem forward_never_crashes (cfg : Cfg) (ok : CfgOK cfg) (n : Nat) (s : State)
 /-! ### The Spec's C03 clauses on every run of the model -/
 
 /-- **The Spec's C03 clauses hold on every run of the model.**  For every configuration meeting the side conditions
-(`CfgOK`, automatic fuel, `OrdPerm`: the iteration order of a Python `set` visits every element once — insertion order
+(`CfgOK`, automatic fuel, CLIENT_CLOSED is not the ALL_MESSAGE_TYPES sentinel;
+`OrdPerm`: the iteration order of a Python `set` visits every element once — insertion order
 and its reverse, which the driver uses, are instances) and every history whose frames are read from connections (never
 from the manager's own table entry, uid 0 — true of every generated history), the verdict `Spec.runSpec` computes from
 the history and the model's own events has no C03 entry. -/
